@@ -528,3 +528,54 @@ pub fn regression_cases(env: &Env) -> Vec<(String, String, Value)> {
     }
     out
 }
+
+// ---------------------------------------------------------------------------------------
+// coverage-guided fuzzing supplement (thorough tier): the check script runs libFuzzer first and
+// points us at its corpus / artifact directories and log; every input found is re-executed
+// through the oracle in-process so a crash becomes an ordinary replayable violation.
+
+pub struct FuzzInputs {
+    pub inputs: Vec<(String, Vec<u8>)>,
+    pub stats: serde_json::Value,
+}
+
+pub fn fuzz_inputs() -> Option<FuzzInputs> {
+    let dirs = std::env::var("VCHECK_FUZZ_DIRS").ok()?;
+    let mut inputs = Vec::new();
+    for d in dirs.split(':').filter(|d| !d.is_empty()) {
+        if let Ok(rd) = std::fs::read_dir(d) {
+            let mut paths: Vec<_> = rd.filter_map(|e| e.ok()).map(|e| e.path()).filter(|p| p.is_file()).collect();
+            paths.sort();
+            for p in paths {
+                if let Ok(b) = std::fs::read(&p) {
+                    inputs.push((p.display().to_string(), b));
+                }
+            }
+        }
+    }
+    let mut executed = 0u64;
+    let mut cov = 0u64;
+    let mut crashes = 0u64;
+    let mut status = "no log".to_string();
+    if let Ok(log) = std::env::var("VCHECK_FUZZ_LOG") {
+        if let Ok(txt) = std::fs::read_to_string(&log) {
+            status = "ran".into();
+            for line in txt.lines() {
+                if let Some(n) = line.strip_prefix("stat::number_of_executed_units:") {
+                    executed += n.trim().parse::<u64>().unwrap_or(0);
+                }
+                if let Some(i) = line.find(" cov: ") {
+                    let n: String = line[i + 6..].chars().take_while(|c| c.is_ascii_digit()).collect();
+                    cov = cov.max(n.parse().unwrap_or(0));
+                }
+                if line.contains("VIOLATION-IN-FUZZ") || line.contains("ERROR: libFuzzer") {
+                    crashes += 1;
+                }
+                if line.contains("FUZZ-BUILD-FAILED") {
+                    status = "fuzz build failed: fuzz part not run".into();
+                }
+            }
+        }
+    }
+    Some(FuzzInputs { stats: json!({"engine": "libFuzzer (cargo fuzz)", "status": status, "executions": executed, "edge_coverage": cov, "crash_lines_in_log": crashes, "inputs_replayed_through_oracle": inputs.len()}), inputs })
+}
